@@ -18,6 +18,7 @@ extern crate rustc_session;
 extern crate rustc_span;
 extern crate rustc_target;
 
+mod ai;
 mod facts;
 mod json;
 
@@ -39,6 +40,7 @@ impl rustc_driver::Callbacks for Cb {
         let out = std::env::var("VERIF_OUT").expect("VERIF_OUT not set");
         let text = match mode.as_str() {
             "facts" => facts::run(tcx),
+            "ai" => ai::jobs::run(tcx),
             other => panic!("unknown VERIF_MODE {other}"),
         };
         std::fs::write(&out, text).expect("cannot write VERIF_OUT");
@@ -52,5 +54,11 @@ fn main() {
     if args.len() > 1 && (args[1].ends_with("rustc") || args[1].contains("/rustc")) {
         args.remove(1);
     }
-    rustc_driver::run_compiler(&args, &mut Cb);
+    // deep recursion in the abstract interpreter: run on a thread with a large stack
+    let h = std::thread::Builder::new().stack_size(2 << 30).spawn(move || {
+        rustc_driver::run_compiler(&args, &mut Cb);
+    }).unwrap();
+    if h.join().is_err() {
+        std::process::exit(101);
+    }
 }
